@@ -1,7 +1,7 @@
 (** C09 -- canonical observations for the correspondence check (no proofs here). *)
 From Coq Require Import List ZArith NArith Bool.
 From MxlBase Require Import ListX.
-From Scan Require Import ScanGeneric ScanModel.
+From Scan Require Import ScanGeneric ScanModel ScanY0.
 Import ListNotations.
 Local Open Scope Z_scope.
 
@@ -37,20 +37,31 @@ Definition obs_eqb (a b : observed) : bool :=
   | _, _ => false
   end.
 
-Record case := mkCase { k_m : mdl; k_w : wkind; k_md : mode; k_rows : list (label * row); k_obs : observed }.
+(** [k_ep]: which entry point ran (its [y0] policy is looked up in the regenerated table); [k_y0]: the
+    [y0] argument of the call *)
+Record case := mkCase { k_m : mdl; k_w : wkind; k_md : mode; k_rows : list (label * row); k_obs : observed;
+                        k_ep : ep_name; k_y0 : option y0 }.
 
-Definition run_case (f : scan_facts) (c : case) : observed :=
+Definition run_case (f : scan_facts) (eps : list entry_point) (c : case) : observed :=
+  let p := y0_policy_of eps (k_ep c) in
   match k_w c with
-  | WSteady => canon true (scan_list_c f WSteady (k_md c) (k_m c) (k_rows c))
+  | WSteady => canon true (scan_list_y0_c p f WSteady (k_md c) (k_m c) (k_y0 c) (k_rows c))
   | WTimeCourse tps =>
-      match scan_dict_checked_c f (WTimeCourse tps) (k_md c) (k_m c) (k_rows c) with
+      match scan_dict_y0_c p f (WTimeCourse tps) (k_md c) (k_m c) (k_y0 c) (k_rows c) with
       | None => ObsRefuse
       | Some t => canon false t
       end
   end.
 
-Definition mismatches (f : scan_facts) (cs : list case) : list nat :=
-  filter_idx (fun c => negb (obs_eqb (run_case f c) (k_obs c))) cs.
+Definition mismatches (f : scan_facts) (eps : list entry_point) (cs : list case) : list nat :=
+  filter_idx (fun c => negb (obs_eqb (run_case f eps c) (k_obs c))) cs.
+
+(** the result cache: the real [parallelise(fn, inputs, cache=..., parallel=False)] with
+    [fn = x -> x*x + 1] on integer keys / values against [run_cached] from an empty store *)
+Definition cache_fn (x : Z) : Z := x * x + 1.
+Definition zpair_eqb (a b : Z * Z) : bool := Z.eqb (fst a) (fst b) && Z.eqb (snd a) (snd b).
+Definition cache_mismatches (cs : list (list (Z * Z) * list (Z * Z))) : list nat :=
+  filter_idx (fun c => negb (list_eqb zpair_eqb (snd (run_cached Z Z Z Z.eqb cache_fn [] (fst c))) (snd c))) cs.
 
 (** axis lengths of the protocol worker (success n*tpps+1 vs placeholder), on symbolic points *)
 Definition sym_pt := (nat * nat * nat)%type.   (* not used for values: only lengths are compared *)
